@@ -905,6 +905,20 @@ func untypedNullValues(withUnknown bool) []hazardValue {
 			cty.ListVal([]cty.Value{cty.NullVal(cty.List(cty.String)), cty.ListVal([]cty.Value{cty.StringVal("x")})}),
 			cty.TupleVal([]cty.Value{cty.ListVal([]cty.Value{cty.NullVal(ot), ov, ov})}),
 		)
+		// ... and members that are not null themselves but hold a null at an intermediate position
+		// above a placeholder two levels down, before and after a fully populated member
+		it := cty.Object(map[string]cty.Type{"a": cty.String})
+		full := cty.ObjectVal(map[string]cty.Value{"b": cty.ObjectVal(map[string]cty.Value{"a": cty.StringVal("x")})})
+		hole := cty.ObjectVal(map[string]cty.Value{"b": cty.NullVal(it)})
+		tfull := cty.TupleVal([]cty.Value{cty.TupleVal([]cty.Value{cty.NumberIntVal(1)})})
+		thole := cty.TupleVal([]cty.Value{cty.NullVal(cty.Tuple([]cty.Type{cty.Number}))})
+		vs = append(vs,
+			cty.ListVal([]cty.Value{hole, full}), cty.ListVal([]cty.Value{full, hole}), cty.ListVal([]cty.Value{hole, hole, full}),
+			cty.SetVal([]cty.Value{hole, full}),
+			cty.MapVal(map[string]cty.Value{"a": hole, "b": full}), cty.MapVal(map[string]cty.Value{"a": full, "b": hole}),
+			cty.ListVal([]cty.Value{thole, tfull}), cty.ListVal([]cty.Value{tfull, thole}),
+			cty.ObjectVal(map[string]cty.Value{"l": cty.ListVal([]cty.Value{hole, full})}),
+		)
 	}
 	optTy := cty.ObjectWithOptionalAttrs(map[string]cty.Type{"a": cty.String, "b": cty.Number}, []string{"b"})
 	vs = append(vs, cty.NullVal(optTy), cty.ListValEmpty(optTy), cty.MapValEmpty(optTy),
